@@ -1,0 +1,111 @@
+//go:build verif
+
+// Copyright Istio Authors
+//
+// Licensed under the Apache License, Version 2.0 (the "License");
+// you may not use this file except in compliance with the License.
+// You may obtain a copy of the License at
+//
+//     http://www.apache.org/licenses/LICENSE-2.0
+//
+// Unless required by applicable law or agreed to in writing, software
+// distributed under the License is distributed on an "AS IS" BASIS,
+// WITHOUT WARRANTIES OR CONDITIONS OF ANY KIND, either express or implied.
+// See the License for the specific language governing permissions and
+// limitations under the License.
+
+package sets
+
+import "istio.io/istio/pkg/verif"
+
+// Contracts of the generic set operations. They are proved once, with the element type an
+// uninterpreted sort, and used at every call site of the kernels of C02, C03, C04, C06 and C15.
+
+func has[T comparable](s Set[T], x T) bool {
+	_, ok := s[x]
+	return ok
+}
+
+//verif:contract (Set).Merge
+//verif:prop C02
+func ctMerge[T comparable](s, s2 Set[T]) {
+	verif.Requires("receiver-non-nil-or-nothing-to-add", s != nil || len(s2) == 0)
+	r := s.Merge(s2)
+	verif.Ensures("returns-receiver", verif.Same(r, s))
+	verif.Ensures("is-union", verif.Forall(func(x T) bool {
+		return has(s, x) == (verif.Old(func() bool { return has(s, x) }) || verif.Old(func() bool { return has(s2, x) }))
+	}))
+}
+
+//verif:invariant (Set).Merge 1
+func invMerge[T comparable](s, s2 Set[T]) bool {
+	return verif.Forall(func(x T) bool {
+		return has(s, x) == (verif.Old(func() bool { return has(s, x) }) || (verif.Old(func() bool { return has(s2, x) }) && verif.Visited(s2, x)))
+	})
+}
+
+// inPrefix: x occurs among the first n elements of items.
+func inPrefix[T comparable](items []T, n int, x T) bool {
+	return verif.Exists(func(i int) bool { return 0 <= i && i < n && i < len(items) && items[i] == x })
+}
+
+//verif:contract (Set).InsertAll
+//verif:prop C04
+func ctInsertAll[T comparable](s Set[T], items []T) {
+	verif.Requires("receiver-non-nil-or-nothing-to-add", s != nil || len(items) == 0)
+	r := s.InsertAll(items...)
+	verif.Ensures("returns-receiver", verif.Same(r, s))
+	verif.Ensures("adds-exactly-items", verif.Forall(func(x T) bool {
+		return has(s, x) == (verif.Old(func() bool { return has(s, x) }) || inPrefix(items, len(items), x))
+	}))
+}
+
+//verif:invariant (Set).InsertAll 1
+func invInsertAll[T comparable](s Set[T], items []T, rangeindex int) bool {
+	return -1 <= rangeindex && rangeindex < len(items) && verif.Forall(func(x T) bool {
+		return has(s, x) == (verif.Old(func() bool { return has(s, x) }) || inPrefix(items, rangeindex+1, x))
+	})
+}
+
+//verif:contract New
+//verif:prop C04
+func ctNew[T comparable](items []T) {
+	r := New(items...)
+	verif.Ensures("fresh", r != nil && verif.Fresh(r))
+	verif.Ensures("exactly-items", verif.Forall(func(x T) bool { return has(r, x) == inPrefix(items, len(items), x) }))
+}
+
+//verif:contract (Set).Copy
+//verif:prop C03
+func ctCopy[T comparable](s Set[T]) {
+	r := s.Copy()
+	verif.Ensures("fresh", r != nil && verif.Fresh(r))
+	verif.Ensures("same-elements", verif.Forall(func(x T) bool { return has(r, x) == has(s, x) }))
+	verif.Ensures("receiver-unchanged", verif.Forall(func(x T) bool { return has(s, x) == verif.Old(func() bool { return has(s, x) }) }))
+}
+
+//verif:invariant (Set).Copy 1
+func invCopy[T comparable](s, result Set[T]) bool {
+	return result != nil && verif.Fresh(result) && verif.Forall(func(x T) bool {
+		return has(result, x) == (has(s, x) && verif.Visited(s, x)) && has(s, x) == verif.Old(func() bool { return has(s, x) })
+	})
+}
+
+//verif:contract (Set).Difference
+//verif:prop C04
+func ctDifference[T comparable](s, s2 Set[T]) {
+	r := s.Difference(s2)
+	verif.Ensures("fresh", r != nil && verif.Fresh(r))
+	verif.Ensures("is-difference", verif.Forall(func(x T) bool { return has(r, x) == (has(s, x) && !has(s2, x)) }))
+	verif.Ensures("arguments-unchanged", verif.Forall(func(x T) bool {
+		return has(s, x) == verif.Old(func() bool { return has(s, x) }) && has(s2, x) == verif.Old(func() bool { return has(s2, x) })
+	}))
+}
+
+//verif:invariant (Set).Difference 1
+func invDifference[T comparable](s, s2, result Set[T]) bool {
+	return result != nil && verif.Fresh(result) && verif.Forall(func(x T) bool {
+		return has(result, x) == (has(s, x) && !has(s2, x) && verif.Visited(s, x)) &&
+			has(s, x) == verif.Old(func() bool { return has(s, x) }) && has(s2, x) == verif.Old(func() bool { return has(s2, x) })
+	})
+}
